@@ -1,12 +1,14 @@
 package props
 
 import (
+	"context"
 	"fmt"
 	"sort"
 	"strings"
 	"time"
 
 	"cosmossdk.io/math"
+	sdk "github.com/cosmos/cosmos-sdk/types"
 
 	authtypes "github.com/cosmos/cosmos-sdk/x/auth/types"
 
@@ -193,6 +195,60 @@ func privilegedSubmitters(env *L1Env, bridge uint64, recipient string) map[strin
 	}
 }
 
+// c02Reentrant: while the escrow pays a withdrawal out, code running inside the bank transfer (a send restriction, a
+// transfer hook of the host chain) submits the very same claim again on the same context. It must be refused: the
+// withdrawal is paid once.
+func c02Reentrant(run *mon.Run, rng *mon.Rand) {
+	run.Declare("C02.reentrant_claim_paid_once", 4)
+	for _, nLeaves := range []int{1, 2, 5} {
+		for _, again := range []string{"same submitter", "other submitter", "other spelling"} {
+			onSend := new(func(ctx context.Context, from, to sdk.AccAddress, amt sdk.Coins))
+			env := newL1EnvOpts(1, []time.Duration{5 * time.Second}, sim.L1Opts{WrapBank: func(b ophosttypes.BankKeeper) ophosttypes.BankKeeper {
+				return sim.HookedBank{BankKeeper: b, OnSend: onSend}
+			}})
+			user := env.Users[1]
+			if r := env.Deposit(env.Users[0], 1, "l2", "uinit", math.NewInt(1_000_000), nil); r.Class != sim.OK {
+				panic(r.ErrString())
+			}
+			var ws []Withdrawal
+			for i := 0; i < nLeaves; i++ {
+				ws = append(ws, Withdrawal{1, uint64(i + 1), "l2sender", user.String(), "uinit", 1000})
+			}
+			o := env.ProposeTree(1, ws, ref.PadLast, rng)
+			env.L1.NextBlock(6 * time.Second)
+			before := env.L1.BK.GetBalance(env.L1.Ctx, user.Addr, "uinit").Amount
+			nested := ""
+			depth := 0
+			*onSend = func(ctx context.Context, from, to sdk.AccAddress, amt sdk.Coins) {
+				if depth > 0 || !from.Equals(ophosttypes.BridgeAddress(1)) {
+					return
+				}
+				depth++
+				defer func() { depth--; _ = recover() }()
+				m := o.Claim(0, user.String())
+				switch again {
+				case "other submitter":
+					m.Sender = env.Users[4].String()
+				case "other spelling":
+					m.To = strings.ToUpper(m.To)
+				}
+				if _, err := env.L1.Router.Handler(m)(sdk.UnwrapSDKContext(ctx), m); err != nil {
+					nested = "refused: " + err.Error()
+				} else {
+					nested = "ACCEPTED"
+				}
+			}
+			res := env.L1.Deliver(o.Claim(0, user.String()))
+			*onSend = nil
+			run.Evaluations++
+			got := env.L1.BK.GetBalance(env.L1.Ctx, user.Addr, "uinit").Amount.Sub(before)
+			tr := []string{fmt.Sprintf("output with %d leaves; claim of leaf 0 -> %s %s; the same claim submitted from inside the payout transfer (%s) -> %s; recipient received %s", nLeaves, res.Class, res.ErrString(), again, nested, got)}
+			run.Check("C02.reentrant_claim_paid_once", res.Class == sim.OK && got.Equal(math.NewInt(1000)), "c02.reentrant_double_payment", tr, "a withdrawal of 1000 re-submitted during its own payout: the recipient received %s", got)
+			run.Distinct(fmt.Sprintf("C02/reentrant/%d/%s", nLeaves, again))
+		}
+	}
+}
+
 func treeKey(o *ProposedOutput) string {
 	var sb strings.Builder
 	for _, w := range o.Ws {
@@ -207,6 +263,7 @@ func checkC02(run *mon.Run, rng *mon.Rand, thorough bool) {
 	for _, c := range []string{"C02.paid_at_most_once", "C02.claimed_query_agrees", "C02.claimed_query_other_bridge", "C02.recipient_credited_once", "C02.resubmission_rejected", "C02.first_payment_accepted", "C02.resubmission_by_anyone_rejected", "C02.respelled_recipient_not_paid_again"} {
 		run.Declare(c, 10)
 	}
+	c02Reentrant(run, rng)
 	period := 10 * time.Second
 	env := newL1Env(2, []time.Duration{period, period})
 	user := sim.NewAccount("c02recipient")
